@@ -467,7 +467,7 @@ func checkC01(p *Program, r *Report) {
 					continue
 				}
 				ctor := ap.Delegate.Call.StaticCallee()
-				if ctor == nil {
+				if ctor == nil || ctor.Signature.Results().Len() == 0 {
 					continue
 				}
 				arm := outer
@@ -517,7 +517,7 @@ func checkC01(p *Program, r *Report) {
 				}
 				// an in-repo helper that builds the address from (payload, type): look inside, with its parameters
 				// standing for the caller's arguments
-				if p.InRepo(ctor) && len(ctor.Blocks) > 0 && depth < 2 {
+				if p.InRepo(ctor) && len(ctor.Blocks) > 0 && depth < 2 && ctor.Signature.Results().Len() > 0 {
 					if _, isIface := ctor.Signature.Results().At(0).Type().Underlying().(*types.Interface); isIface {
 						sub := map[ssa.Value]ssa.Value{}
 						for i, a := range ap.Delegate.Call.Args {
@@ -597,6 +597,19 @@ func checkC01(p *Program, r *Report) {
 	c01membership(p, r, addrTypes)
 	c01hashing(p, r, addrTypes)
 	c01total(p, r, addrTypes)
+	addrPureRule(p, r, "C01.pure", addrTypes)
+	r.Floor("C01.pure", 10)
+	// round 6 (C01-agent6-m1/m2): "decoding … the lower-case, upper-case and prefix-qualified renderings" rests on how
+	// DecodeAddress prepares its input for the CashAddr decoder — C02's whole-input, own-prefix and canonical-input
+	// clauses are C01's as much as C02's
+	r.Borrow("C02", func(o *Ob) (string, bool) {
+		switch o.Rule {
+		case "C02.whole", "C02.net", "C02.canon":
+			return "C01.input", true
+		}
+		return "", false
+	})
+	r.Floor("C01.input", 4)
 	// round 5 (C01-agent5-m2): a public-key serialisation assembled from big.Int.Bytes() loses leading zero bytes
 	padObligations(p, r, "C01.pad", pkgFuncs(p, ""))
 	r.Floor("C01.pad", 0)
@@ -1153,4 +1166,71 @@ func c01total(p *Program, r *Report, addrTypes []*types.Named) {
 		r.Unresolved("C01.total", "hash-taking address constructors")
 	}
 	r.Floor("C01.total", 3)
+}
+
+// addrPureRule (round 6, C02-agent6-m3): decoding, converting and rendering an address write nothing the caller can
+// see.  Functions of the root package that take or return an address write no memory reachable from their arguments;
+// methods of the address types write at most a field of their own receiver (setters).  A conversion helper that
+// "copies" a decoded address by copying the POINTER and then sets the prefix re-labels the caller's address.
+func addrPureRule(p *Program, r *Report, rule string, addrTypes []*types.Named) int {
+	ef := NewEffects(p)
+	root := p.Pkg("")
+	isAddrT := func(t types.Type) bool {
+		nt := namedOf(t)
+		if nt == nil {
+			return false
+		}
+		if nt.Obj().Pkg() != nil && nt.Obj().Pkg().Path() == ModPath && nt.Obj().Name() == "Address" {
+			return true
+		}
+		for _, a := range addrTypes {
+			if a == nt {
+				return true
+			}
+		}
+		return false
+	}
+	n := 0
+	for _, fn := range pkgFuncs(p, "") {
+		if fn.Pkg != root || fn.Parent() != nil || fn.Synthetic != "" || fn.Object() == nil || !fn.Object().Exported() {
+			continue
+		}
+		touches := false
+		for _, pa := range fn.Params {
+			if isAddrT(pa.Type()) {
+				touches = true
+			}
+		}
+		res := fn.Signature.Results()
+		for i := 0; i < res.Len(); i++ {
+			if isAddrT(res.At(i).Type()) {
+				touches = true
+			}
+		}
+		if !touches {
+			continue
+		}
+		n++
+		isMethod := fn.Signature.Recv() != nil
+		var bad []string
+		for _, e := range ef.WriteEffects(fn) {
+			switch e.Root.Kind {
+			case rkParam:
+				if isMethod && e.Root.Idx == 0 && strings.HasPrefix(e.Root.Path, "*.") && !strings.Contains(e.Root.Path[2:], "*") && !strings.Contains(e.Root.Path[2:], ".") {
+					continue // a field of the receiver itself
+				}
+				bad = append(bad, fmt.Sprintf("%s → %s at %s", e.What, e.Root, p.Pos(e.Pos)))
+			case rkGlobal:
+				bad = append(bad, fmt.Sprintf("%s → package-level %s at %s", e.What, e.Root, p.Pos(e.Pos)))
+			}
+		}
+		sort.Strings(bad)
+		bad = dedup(bad)
+		how := "no store, copy or writer call targets memory reachable from an argument"
+		if len(bad) > 0 {
+			how = strings.Join(bad, "; ")
+		}
+		r.Add(rule, FnName(fn), "the operation leaves its arguments (and package-level state) untouched", fn.Pos(), len(bad) == 0, how)
+	}
+	return n
 }
